@@ -241,7 +241,14 @@ int main(void)
 	ninodes = (unsigned long long) ipg * G;
 	PROP(ninodes <= 0xffffffffull && sb->s_inodes_count == ninodes, "s_inodes_count == inodes per group * groups, no 32-bit wrap");
 	PROP(sb->s_inodes_count >= sb->s_first_ino + 1 && sb->s_first_ino == 11, "room for the reserved inodes and one more");
+#if (1024 << LOGBS) / ISIZE >= 8
 	PROP(sb->s_inodes_count >= IN.inodes, "at least as many inodes as requested");
+#else
+	/* fewer than 8 inodes per block: rounding up to whole table blocks and then DOWN to a multiple of 8 can end below the request */
+	/* with fewer than 8 inodes per block the count is rounded DOWN to a multiple of 8 (mke2fs -b 1024 -I 256 -N 20
+	 * gives 16): -N is a request that mke2fs documents as adjustable, so this is recorded as an observation in
+	 * DESIGN.md and not asserted */
+#endif
 	PROP(sb->s_free_inodes_count == sb->s_inodes_count, "all inodes free");
 
 	/* --- reserved GDT blocks / meta_bg switch */
